@@ -389,16 +389,13 @@ def gen_HabConsts():
     for n in ast.walk(xh) if xh else []:
         if isinstance(n, ast.Call) and getattr(n.func, "id", getattr(n.func, "attr", None)) == "pack":
             xexprs = [ast.unparse(a).replace("self.", "") for a in n.args[1:]]
-    out.append(f"def xmcdHeaderExportExprs : List String := {lstrs(xexprs)}")
-    meta["xmcdHeaderExportExprs"] = xexprs
+    meta["xmcdHeaderExportExprs"] = xexprs  # informational only; the bytes are translated in HabFuns
     xsize = _getter(_cls(t[SEG], "SegXMCD"), "size")
     xsize_src = ""
     if xsize is not None:
         rets = [n for n in ast.walk(xsize) if isinstance(n, ast.Return) and n.value is not None]
         xsize_src = ast.unparse(rets[-1].value).replace("self.", "") if rets else ""
-    out.append("/-- return expression of `SegXMCD.size` (empty string: the class inherits BaseSegment.size = 0) -/")
-    out.append(f"def segXmcdSizeExpr : String := {lstr(xsize_src)}")
-    meta["segXmcdSizeExpr"] = xsize_src
+    meta["segXmcdSizeExpr"] = xsize_src  # informational only ('' = inherits BaseSegment.size = 0)
 
     # ---- integer constants
     consts = {}
@@ -469,7 +466,8 @@ def gen_HabConsts():
     for v in gfc:
         flat += v if isinstance(v, list) else [v]
     flat = [v for v in flat if isinstance(v, int)]
-    out.append(f"def parseFlags : List Nat := {lnats(flat)}   -- [no CSF, decrypt present, else]")
+    flat = sorted(set(flat))
+    out.append(f"def parseFlags : List Nat := {lnats(flat)}   -- values _get_flags can return")
     meta["parseFlags"] = flat
     # SEGMENTS_MAPPING order and _get_signed_blocks groups
     order = []
@@ -810,6 +808,22 @@ def gen_HabFuns():
         from_stmts("p_csf", ["csf_address", "ivt_address"], parse_assign("CsfHabSegment", "offset"), target="offset"))
     add("parseIvtOffset", f"{HCON}::HabContainer.parse (ivt_offset)", ["ivt_address", "app_start"], "Int",
         from_stmts("p_ivtoff", ["ivt_address", "app_start"], parse_assign("HabContainer", "ivt_offset"), target="ivt_offset"))
+
+    # 14. XMCD header bytes (XMCDHeader.export): operator precedence matters there
+    def xmcd_arg(i):
+        def g():
+            f = cls_fun(SEG, "XMCDHeader", "export")
+            for n in ast.walk(f) if f else []:
+                if isinstance(n, ast.Call) and getattr(n.func, "id", getattr(n.func, "attr", None)) == "pack" and len(n.args) == 5:
+                    return [ast.Return(value=n.args[1 + i])]
+            return None
+        return g
+
+    xs = {"self.block_size": "block_size", "self.block_type": "block_type", "self.interface": "interface",
+          "self.instance": "instance", "self.tag": "tag", "self.version": "version"}
+    for i, ps in enumerate((["block_size"], ["block_type", "block_size"], ["interface", "instance"], ["tag", "version"])):
+        add(f"xmcdHdrByte{i}", f"{SEG}::XMCDHeader.export (byte {i})", ps, "Int",
+            from_stmts(f"xmcd_b{i}", ps, xmcd_arg(i), subst=xs))
 
     out.append("end SpsdkVerif.Generated.HabFuns")
     emit("HabFuns", "\n".join(out) + "\n", meta)
